@@ -35,11 +35,12 @@ func histPrefixes(mode srvMode) [][]string {
 }
 
 type histConf struct {
-	Mode    srvMode
-	MaxRcpt int
+	Mode     srvMode
+	MaxRcpt  int
+	MaxBytes int64
 }
 
-var histConfs = []histConf{{modeSMTP, 0}, {modeSMTP, 2}, {modeLMTPRcpt, 0}, {modeLMTPRcpt, 2}}
+var histConfs = []histConf{{modeSMTP, 0, 0}, {modeSMTP, 2, 0}, {modeLMTPRcpt, 0, 0}, {modeLMTPRcpt, 2, 0}, {modeSMTP, 0, histLimit}, {modeLMTPRcpt, 2, histLimit}}
 
 // histGenerate emits the shared history workload: exhaustive short suffixes after each prefix
 // state, then seeded longer histories.
@@ -48,7 +49,7 @@ func histGenerate(ctx *core.Ctx, exhaustLen, nSeeded, maxLen int, stream uint64,
 		for _, pre := range histPrefixes(cf.Mode) {
 			core.Strings(histAlphabet, exhaustLen, func(parts []string) {
 				h := append(append([]string{}, pre...), parts...)
-				emit(hcase{Mode: cf.Mode, MaxRcpt: cf.MaxRcpt, Hist: h, Disc: "lock"})
+				emit(hcase{Mode: cf.Mode, MaxRcpt: cf.MaxRcpt, MaxBytes: cf.MaxBytes, Hist: h, Disc: "lock"})
 			})
 		}
 	}
@@ -81,7 +82,7 @@ func histGenerate(ctx *core.Ctx, exhaustLen, nSeeded, maxLen int, stream uint64,
 		for len(h) < n {
 			h = append(h, weighted[r.Intn(len(weighted))])
 		}
-		emit(hcase{Mode: cf.Mode, MaxRcpt: cf.MaxRcpt, Hist: h, Disc: "lock"})
+		emit(hcase{Mode: cf.Mode, MaxRcpt: cf.MaxRcpt, MaxBytes: cf.MaxBytes, Hist: h, Disc: "lock"})
 	}
 }
 
@@ -90,7 +91,7 @@ func c03Run(ctx *core.Ctx) {
 	if ctx.Thorough() {
 		exLen, nSeeded, maxLen = 3, 600000, 20
 	}
-	ctx.Rule = fmt.Sprintf("lock-step command histories over %d abstract commands (valid / backend-rejected / malformed / out-of-order variants of HELO EHLO LHLO MAIL RCPT DATA BDAT RSET NOOP VRFY AUTH STARTTLS QUIT unknown): ALL histories of length <=%d appended to each of 9 prefix states (fresh, greeted, MAIL accepted, RCPT accepted, RCPT rejected, mid-BDAT, after finished DATA, after failed DATA, after STARTTLS) in 4 configurations {SMTP, LMTP} x MaxRecipients {0,2}, plus %d seeded histories of length 3..%d; a transaction-monitor automaton driven by the observed replies judges every callback. Non-trivial: at least three backend callbacks were observed; distinct by (configuration, history).", len(histAlphabet), exLen, nSeeded, maxLen)
+	ctx.Rule = fmt.Sprintf("lock-step command histories over %d abstract commands (valid / backend-rejected / malformed / out-of-order variants of HELO EHLO LHLO MAIL RCPT DATA BDAT RSET NOOP VRFY AUTH STARTTLS QUIT unknown): ALL histories of length <=%d appended to each of 9 prefix states (fresh, greeted, MAIL accepted, RCPT accepted, RCPT rejected, mid-BDAT, after finished DATA, after failed DATA, after STARTTLS) in 6 configurations ({SMTP, LMTP} x MaxRecipients {0,2}, and two with MaxMessageBytes=1000 where the *_BIG commands exceed the limit), plus %d seeded histories of length 3..%d; a transaction-monitor automaton driven by the observed replies judges every callback. Non-trivial: at least three backend callbacks were observed; distinct by (configuration, history).", len(histAlphabet), exLen, nSeeded, maxLen)
 	ctx.Assumptions = []string{"a second MAIL inside an open transaction taints the transaction (not judged)", "Reset is required only when a sender had been accepted", "lock-step: the next command is sent only when the server is parked waiting for input"}
 	core.RunCases(ctx, func(emit func(hcase)) {
 		histGenerate(ctx, exLen, nSeeded, maxLen, 31, emit)
@@ -119,7 +120,7 @@ func histJudge(ctx *core.Ctx, h hcase, prefix string) *histRun {
 			continue
 		}
 		seen[v.Sig] = true
-		ctx.Violate(v.Sig, v.Msg+fmt.Sprintf(" [mode=%s maxrcpt=%d hist=%s]", h.Mode, h.MaxRcpt, strings.Join(h.Hist, ",")), h, witness(run.Log, run.All))
+		ctx.Violate(v.Sig, v.Msg+fmt.Sprintf(" [mode=%s maxrcpt=%d maxbytes=%d hist=%s]", h.Mode, h.MaxRcpt, h.MaxBytes, strings.Join(h.Hist, ",")), h, witness(run.Log, run.All))
 	}
 	cls := fmt.Sprintf("%s/%d", h.Mode, h.MaxRcpt)
 	if len(h.Hist) >= 5 && ctx.WantSample(cls) {
